@@ -1,0 +1,124 @@
+package utils
+
+import (
+	"encoding/binary"
+	"fmt"
+)
+
+// The MessagePack decoder recurses once per nesting level and a body of a few
+// megabytes can nest millions of levels (an array of one element takes one
+// byte), which exhausts the goroutine stack and ends the process. Documents are
+// refused beyond the depth encoding/json accepts.
+const MaxMsgpackDepth = 10000
+
+// MsgpackDepth walks an encoded MessagePack value without decoding it and
+// returns how deep its non-empty arrays and maps nest. It fails as soon as the depth
+// exceeds MaxMsgpackDepth. Malformed or truncated input is not its business, it
+// stops there and leaves the error to the decoder.
+func MsgpackDepth(b []byte) (int, error) {
+	// Number of values still missing in each open array or map
+	open := make([]uint64, 0, 16)
+	maxDepth := 0
+	i := 0
+	for i < len(b) {
+		c := b[i]
+		i++
+		// Children the value opens, payload bytes to skip, bytes of a length field
+		var items uint64
+		skip, lenBytes, perItem := 0, 0, uint64(1)
+		isContainer := false
+		switch {
+		case c <= 0x7f, c >= 0xe0, c == 0xc0, c == 0xc2, c == 0xc3:
+			// fixint, nil, false, true
+		case c >= 0x80 && c <= 0x8f:
+			isContainer, items = true, 2*uint64(c&0x0f)
+		case c >= 0x90 && c <= 0x9f:
+			isContainer, items = true, uint64(c&0x0f)
+		case c >= 0xa0 && c <= 0xbf:
+			skip = int(c & 0x1f)
+		case c == 0xc4, c == 0xd9:
+			lenBytes = 1
+		case c == 0xc5, c == 0xda:
+			lenBytes = 2
+		case c == 0xc6, c == 0xdb:
+			lenBytes = 4
+		case c == 0xc7:
+			lenBytes, skip = 1, 1
+		case c == 0xc8:
+			lenBytes, skip = 2, 1
+		case c == 0xc9:
+			lenBytes, skip = 4, 1
+		case c == 0xca, c == 0xce, c == 0xd2:
+			skip = 4
+		case c == 0xcb, c == 0xcf, c == 0xd3:
+			skip = 8
+		case c == 0xcc, c == 0xd0:
+			skip = 1
+		case c == 0xcd, c == 0xd1:
+			skip = 2
+		case c >= 0xd4 && c <= 0xd8:
+			skip = 1 + (1 << (c - 0xd4))
+		case c == 0xdc:
+			isContainer, lenBytes = true, 2
+		case c == 0xdd:
+			isContainer, lenBytes = true, 4
+		case c == 0xde:
+			isContainer, lenBytes, perItem = true, 2, 2
+		case c == 0xdf:
+			isContainer, lenBytes, perItem = true, 4, 2
+		default:
+			return maxDepth, nil
+		}
+		if lenBytes > 0 {
+			if i+lenBytes > len(b) {
+				return maxDepth, nil
+			}
+			var n uint64
+			switch lenBytes {
+			case 1:
+				n = uint64(b[i])
+			case 2:
+				n = uint64(binary.BigEndian.Uint16(b[i:]))
+			default:
+				n = uint64(binary.BigEndian.Uint32(b[i:]))
+			}
+			i += lenBytes
+			if isContainer {
+				items = n * perItem
+			} else {
+				if n > uint64(len(b)) {
+					return maxDepth, nil
+				}
+				skip += int(n)
+			}
+		}
+		if i+skip > len(b) {
+			return maxDepth, nil
+		}
+		i += skip
+		if isContainer && items > 0 {
+			open = append(open, items)
+			if len(open) > maxDepth {
+				maxDepth = len(open)
+			}
+			if maxDepth > MaxMsgpackDepth {
+				return maxDepth, fmt.Errorf("exceeded max depth of %d", MaxMsgpackDepth)
+			}
+			continue
+		}
+		// The value is complete, and with it every container it was the last
+		// value of
+		for len(open) > 0 {
+			open[len(open)-1]--
+			if open[len(open)-1] > 0 {
+				break
+			}
+			open = open[:len(open)-1]
+		}
+		if len(open) == 0 {
+			// The top level value is complete
+			break
+		}
+	}
+	return maxDepth, nil
+}
